@@ -89,8 +89,10 @@ fn owned(profile: Profile, v: &Viol) -> bool {
     match profile {
         Profile::C01 => !v.after_fault && matches!(k, "shape" | "lens" | "cells" | "verdict" | "audit_panic" | "redzone" | "crash"),
         Profile::C05 => matches!(k, "ledger" | "leak" | "redzone" | "provenance" | "crash"),
-        Profile::C06 => !v.after_fault && insert_op,
-        Profile::C07 => !v.after_fault && remove_op,
+        // C06 / C07 speak about placement, the drain's items and the rejection of bad arguments:
+        // iterator length reports (lens) and drop accounting (ledger, leak) belong to C01 / C05
+        Profile::C06 => !v.after_fault && insert_op && matches!(k, "shape" | "cells" | "verdict" | "audit_panic" | "redzone" | "provenance" | "crash"),
+        Profile::C07 => !v.after_fault && remove_op && matches!(k, "shape" | "cells" | "verdict" | "drain" | "audit_panic" | "redzone" | "provenance" | "crash"),
         Profile::C11 => v.after_fault && !v.after_leak,
         Profile::C12 => v.after_leak,
     }
@@ -111,6 +113,10 @@ fn install_hook() {
         if VERBOSE.load(std::sync::atomic::Ordering::Relaxed) || array_engine::IN_GUARDED.with(|g| g.get()) == 0 {
             let msg = info.payload().downcast_ref::<&str>().map(|s| s.to_string()).or_else(|| info.payload().downcast_ref::<String>().cloned()).unwrap_or_default();
             eprintln!("PANIC: {} at {:?}", msg, info.location().map(|l| format!("{}:{}", l.file(), l.line())));
+            if array_engine::IN_GUARDED.with(|g| g.get()) == 0 {
+                // a panic outside the guarded regions is a harness bug: show where
+                eprintln!("{}", std::backtrace::Backtrace::force_capture());
+            }
         }
     }));
 }
@@ -157,6 +163,7 @@ fn worker(args: &[String]) -> i32 {
     let digest = args.iter().any(|a| a == "--digest");
     let mut agg = Agg::default();
     let mut n_viol = 0;
+    let mut stop_after: Option<u64> = None;
     if let Some(profile) = Profile::parse(prop) {
         let fault_prop = matches!(profile, Profile::C11 | Profile::C12);
         for run in start..end {
@@ -194,7 +201,12 @@ fn worker(args: &[String]) -> i32 {
                     agg.samples.push(serde_json::to_value(&o.trace).unwrap());
                 }
                 if let Some(v) = o.viol {
+                    // After any violation the heap of this process may be damaged: finish this
+                    // run, report, and let the supervisor continue the range in a fresh process.
                     let is_owned = owned(profile, &v);
+                    // (also when the violation belongs to another property: an accepted invalid
+                    // call may have written anywhere)
+                    stop_after = Some(run);
                     if is_owned {
                         agg.owned_violations += 1;
                         n_viol += 1;
@@ -205,7 +217,7 @@ fn worker(args: &[String]) -> i32 {
                     }
                 }
             }
-            if n_viol >= 8 {
+            if stop_after.is_some() {
                 break;
             }
         }
@@ -241,6 +253,10 @@ fn worker(args: &[String]) -> i32 {
         "realloc_inplace": alloc::N_REALLOC_INPLACE.load(std::sync::atomic::Ordering::Relaxed),
     });
     raw_out(&format!("S {}\n", out));
+    if let Some(r) = stop_after {
+        raw_out(&format!("E {}\n", r + 1));
+    }
+    let _ = n_viol;
     0
 }
 
@@ -261,6 +277,7 @@ fn cursor_worker(prop: &str, thorough: bool, seed: u64, build: &str, start: u64,
     let mut stats = cursor::CStats::default();
     let mut hashes = BTreeSet::new();
     let (mut runs, mut nontrivial, mut n_viol) = (0u64, 0u64, 0u64);
+    let mut stop_after: Option<u64> = None;
     let mut samples: Vec<serde_json::Value> = Vec::new();
     for run in start..end {
         raw_out(&format!("B {}\n", run));
@@ -285,9 +302,8 @@ fn cursor_worker(prop: &str, thorough: bool, seed: u64, build: &str, start: u64,
             n_viol += 1;
             let tf = TraceFile { engine: "cursor".into(), property: prop.to_string(), build: build.to_string(), seed, run, violation: Some(cviol_to_viol(v)), trace: serde_json::to_value(&t).unwrap() };
             raw_out(&format!("V {}\n", serde_json::to_string(&serde_json::json!({"variant": 0, "file": tf})).unwrap()));
-            if n_viol >= 8 {
-                break;
-            }
+            stop_after = Some(run);
+            break;
         }
     }
     if !write_hashes(hashfile, &hashes) {
@@ -299,6 +315,9 @@ fn cursor_worker(prop: &str, thorough: bool, seed: u64, build: &str, start: u64,
         "owned_violations": n_viol, "samples": samples, "foreign": {},
     });
     raw_out(&format!("S {}\n", out));
+    if let Some(r) = stop_after {
+        raw_out(&format!("E {}\n", r + 1));
+    }
     0
 }
 
@@ -311,6 +330,7 @@ fn serde_worker(prop: &str, thorough: bool, seed: u64, build: &str, start: u64, 
     let mut stats = serde_engine::SStats::default();
     let mut hashes = BTreeSet::new();
     let (mut runs, mut nontrivial, mut n_viol) = (0u64, 0u64, 0u64);
+    let mut stop_after: Option<u64> = None;
     let mut samples: Vec<serde_json::Value> = Vec::new();
     for run in start..end {
         raw_out(&format!("B {}\n", run));
@@ -335,9 +355,8 @@ fn serde_worker(prop: &str, thorough: bool, seed: u64, build: &str, start: u64, 
             n_viol += 1;
             let tf = TraceFile { engine: "serde".into(), property: prop.to_string(), build: build.to_string(), seed, run, violation: Some(sviol_to_viol(v)), trace: serde_json::to_value(&t).unwrap() };
             raw_out(&format!("V {}\n", serde_json::to_string(&serde_json::json!({"variant": 0, "file": tf})).unwrap()));
-            if n_viol >= 8 {
-                break;
-            }
+            stop_after = Some(run);
+            break;
         }
     }
     if !write_hashes(hashfile, &hashes) {
@@ -350,6 +369,9 @@ fn serde_worker(prop: &str, thorough: bool, seed: u64, build: &str, start: u64, 
         "owned_violations": n_viol, "samples": samples, "foreign": {},
     });
     raw_out(&format!("S {}\n", out));
+    if let Some(r) = stop_after {
+        raw_out(&format!("E {}\n", r + 1));
+    }
     0
 }
 
@@ -366,7 +388,8 @@ fn journal_cmd(args: &[String]) -> i32 {
         let (outs, _) = one_array_run(profile, thorough, rseed, Some(&mut f), None);
         for o in outs {
             if let Some(v) = o.viol {
-                println!("J-VIOL {}", serde_json::to_string(&v).unwrap());
+                let own = owned(profile, &v);
+                println!("J-VIOL {}", serde_json::json!({"owned": own, "viol": v, "trace": o.trace}));
             }
         }
         0
@@ -377,7 +400,7 @@ fn journal_cmd(args: &[String]) -> i32 {
         let _ = f.write_all(format!("{}\n", serde_json::to_string(&t).unwrap()).as_bytes());
         let mut st = cursor::CStats::default();
         if let Err(v) = cursor::exec(&t, &mut st) {
-            println!("J-VIOL {}", serde_json::to_string(&cviol_to_viol(v)).unwrap());
+            println!("J-VIOL {}", serde_json::json!({"owned": true, "viol": cviol_to_viol(v), "trace": t}));
         }
         0
     } else if matches!(prop.as_str(), "C18" | "C19") {
@@ -386,7 +409,7 @@ fn journal_cmd(args: &[String]) -> i32 {
         let _ = f.write_all(format!("{}\n", serde_json::to_string(&t).unwrap()).as_bytes());
         let mut st = serde_engine::SStats::default();
         if let Err(v) = serde_engine::exec(&t, prop, &mut st) {
-            println!("J-VIOL {}", serde_json::to_string(&sviol_to_viol(v)).unwrap());
+            println!("J-VIOL {}", serde_json::json!({"owned": true, "viol": sviol_to_viol(v), "trace": t}));
         }
         0
     } else {
